@@ -10,3 +10,4 @@ import SmtpV.Props.C19
 #print axioms SmtpV.Props.C19.C19_unusable_bdat_line_counted_on
 #print axioms SmtpV.Props.C19.C19_nothing_skipped_behind_mode_change
 #print axioms SmtpV.Props.C19.C19_next_line_always_counted
+#print axioms SmtpV.Props.C19.C19_lookahead_only_skips
